@@ -96,28 +96,33 @@ def subobjects(design, t, steps=(), lo=0):
 
 def ref_is_bits(design, cls, r):
   """True when reference r (a local path of class cls + steps) denotes a Bits-valued object (not a struct / list)"""
+  return isinstance(ref_type(design, cls, r), int)
+
+
+def ref_type(design, cls, r):
+  """type of the object that r denotes BEFORE its slice steps (None if unknown)"""
   path = r["path"]
   while "." in path:
     iname, path = path.split(".", 1)
     iname = iname.split("[")[0]
     ccn = dict(cls["children"]).get(iname)
-    if ccn is None: return False
+    if ccn is None: return None
     cls = design["classes"][ccn]
   base = path.split("[")[0].replace("$", "")
   t = None
   for sg in cls["signals"]:
     if sg["name"] == base: t = sg["type"]
-  if t is None: return False
+  if t is None: return None
   for st in r["steps"]:
     if st[0] == "f":
-      if isinstance(t, int) or t[0] != "struct": return False
+      if isinstance(t, int) or t[0] != "struct": return None
       t = dict((fn, ft) for fn, ft in design["types"][t[1]])[st[1]]
     elif st[0] == "i":
-      if isinstance(t, int) or t[0] != "list": return False
+      if isinstance(t, int) or t[0] != "list": return None
       t = t[2]
     else:
-      return isinstance(t, int)
-  return isinstance(t, int)
+      return t if isinstance(t, int) else None
+  return t
 
 
 def field_range(design, t, fname):
@@ -1096,6 +1101,19 @@ class Gen:
         else:
           cls["constraints"].append(f"RD({ref_text(rng.choice(whole))}) > U(up_{i})")
     cls["constraints"] = sorted(set(cls["constraints"]))
+    if k.get("p_nested_slice"):
+      # slices of slices in connect statements:  s.x[A:B]  ->  s.x[a:b][A-a:B-a]  (same bits)
+      for con in cls["connects"]:
+        for r in con:
+          if "const" in r or not r.get("steps") or r["steps"][-1][0] != "s" or r.get("sym") or rng.random() >= k["p_nested_slice"]: continue
+          if len(r["steps"]) >= 2 and r["steps"][-2][0] == "s": continue
+          W = ref_type(d, cls, r)
+          if not isinstance(W, int): continue
+          A, B = r["steps"][-1][1], r["steps"][-1][2]
+          a = A if rng.random() < 0.5 else rng.randrange(0, A + 1)
+          b = rng.randrange(B, W + 1)
+          if (a, b) == (A, B) and rng.random() < 0.7: continue
+          r["steps"] = r["steps"][:-1] + [["s", a, b], ["s", A - a, B - a]]
     if k.get("p_vfunc") and rng.random() < k["p_vfunc"]:
       self.add_vfuncs(cls)
     if k.get("p_func"):
